@@ -9,6 +9,7 @@ for d in seeded/*/; do
   n=$(basename $d)
   i=$((i+1))
   [ $((i % $2)) -eq $1 ] || continue
+  python3 -c "import json,sys; sys.exit(0 if json.load(open('seeded/$n/meta.json')).get('kept', True) else 1)" || { echo "== $n retired"; continue; }
   checks=$(python3 -c "
 import json;m=json.load(open('seeded/$n/meta.json'));s=set(m.get('detected_by') or [])|{m['property']};print(' '.join(sorted(s)))")
   echo "== $n [$checks]"
